@@ -72,6 +72,17 @@ static std::vector<CheckDef> g_checks = {
           "key data, restarts; oracle = one-shot call of the same family; distinct_nontrivial: distinct (family, key size, direction, "
           "carried partial length, fragment residue, fragment class, nt, in-place) cells",
           { "the one-shot call of the same family is the oracle, not an object under test (that would be C02)" } },
+        { "C12", "exploration", { { "dispatch", 1 } }, 200000, 20000000, 50, 900, false, false,
+          "cases: seeded architecturally consistent CPUID leaf 1/7 + XCR0 assignments biased to fault profiles (one feature masked, OS state "
+          "disabled, OSXSAVE clear, partial AVX-512 group 1 / group 2, SHA without AVX, Avoton, old parts); every dispatched entry's resolver "
+          "is run under each; distinct_nontrivial: distinct projections of the simulated CPU onto the bits the resolvers read plus distinct "
+          "(entry point, bound target) pairs",
+          { "instruction classes needed by a target come from a hand-written classifier over objdump output of the freshly built objects, closed "
+            "over direct calls/references",
+            "feature classes the dispatchers never test (AES-NI, PCLMULQDQ, SSSE3, BMI, POPCNT) are outside the property's quantifier; AES entry points "
+            "have SSE4.1 as documented minimum requirement",
+            "consistency rules: SSE4.2=>SSE4.1, AVX=>SSE4.2, AVX2=>AVX, AVX512F=>AVX2, sub-features=>F, VAES/VPCLMULQDQ=>AVX, SHA/GFNI=>SSE4.2, "
+            "XCR0 bits only for reported features, ZMM state bits together" } },
         { "C13", "fault_enumeration", { { "fipsgate", 1 } }, 48000, 6000000, 50, 900, false, true,
           "cases: every run starts from one injected self-test state (6 fault kinds, rotated by run index) and its first call rotates over all "
           "isal_* entry points, so every (entry point x initial fault kind) pair is enumerated once per 6*#entries runs; later calls, XTS "
@@ -205,7 +216,7 @@ static void exec_checked(Sim *sim, const Plan &p, uint64_t hidA, uint64_t hidB, 
 
 // ---------------------------------------------------------------- shrinking (ddmin over ops)
 static bool still_fails(Sim *sim, const Plan &p, uint64_t hidA, uint64_t hidB, bool paired, const std::string &focus, const std::string &cls,
-                        int *budget)
+                        const std::string &sig, int *budget)
 {
         if (*budget <= 0)
                 return false;
@@ -213,12 +224,13 @@ static bool still_fails(Sim *sim, const Plan &p, uint64_t hidA, uint64_t hidB, b
         RunResult r;
         exec_checked(sim, p, hidA, hidB, paired, r);
         for (auto &v : r.viols)
-                if (relevant(v, focus) && v.cls == cls)
+                if (relevant(v, focus) && v.cls == cls && (sig.empty() || v.sig == sig || v.prop != focus))
                         return true;
         return false;
 }
 
-static Plan shrink(Sim *sim, Plan p, uint64_t hidA, uint64_t hidB, bool paired, const std::string &focus, const std::string &cls, int *reruns)
+static Plan shrink(Sim *sim, Plan p, uint64_t hidA, uint64_t hidB, bool paired, const std::string &focus, const std::string &cls, const std::string &sig,
+                   int *reruns)
 {
         int budget = 400;
         size_t n = 2;
@@ -236,7 +248,7 @@ static Plan shrink(Sim *sim, Plan p, uint64_t hidA, uint64_t hidB, bool paired, 
                         if (keep.size() == len)
                                 continue;
                         q.ops = keep;
-                        if (still_fails(sim, q, hidA, hidB, paired, focus, cls, &budget)) {
+                        if (still_fails(sim, q, hidA, hidB, paired, focus, cls, sig, &budget)) {
                                 p = q;
                                 n = std::max<size_t>(n - 1, 2);
                                 reduced = true;
@@ -262,7 +274,7 @@ static Plan shrink(Sim *sim, Plan p, uint64_t hidA, uint64_t hidB, bool paired, 
                                 Plan q = p;
                                 int64_t *qf = f == 0 ? &q.ops[i].a : f == 1 ? &q.ops[i].b : f == 2 ? &q.ops[i].c : &q.ops[i].d;
                                 *qf = cand;
-                                if (still_fails(sim, q, hidA, hidB, paired, focus, cls, &budget)) {
+                                if (still_fails(sim, q, hidA, hidB, paired, focus, cls, sig, &budget)) {
                                         p = q;
                                         break;
                                 }
@@ -613,12 +625,12 @@ static void worker_main(int wid, int W, const CheckDef &cd, const std::string &t
                 }
                 // shrink
                 int reruns = 0;
-                Plan small = shrink(sim, p, hidA, hidB, cd.paired, focus, v->cls, &reruns);
+                Plan small = shrink(sim, p, hidA, hidB, cd.paired, focus, v->cls, v->sig, &reruns);
                 RunResult rs;
                 exec_checked(sim, small, hidA, hidB, cd.paired, rs);
                 const Violation *vs = nullptr;
                 for (auto &q : rs.viols)
-                        if (relevant(q, focus) && q.cls == v->cls) {
+                        if (relevant(q, focus) && q.cls == v->cls && (q.sig == v->sig || q.prop != focus)) {
                                 vs = &q;
                                 break;
                         }
